@@ -12,14 +12,15 @@ def run(tier):
     mr = [e for e in out['facts'] if e['e'] == 'MonoReal']
     tr = [e for e in out['facts'] if e['e'] == 'TensorDefReal']
     defined = {d['rel'] for d in defs if d['rel'] >= 0}
-    chk.layer('A', scalar_definitions=len(defs), present=len(defined), tensor_definition_events=len(td),
+    sv = [e for e in out['facts'] if e['e'] == 'Solved']
+    chk.layer('A', scalar_definitions=len(defs), present=len(defined), solved_forms_checked=len(sv), tensor_definition_events=len(td),
               tensor_definition_relations=len({e['rel'] for e in td}),
               note='scalar definitions: measured fingerprint (degrees and constant) must equal the textbook monomial / linear form of Definitions.tla; tensor definitions '
                    '(sym grad u, (beta dT/3) I, von Mises, sigma.n, -p I) recomputed by TLC on integer tensors')
     chk.layer('B', monomial_relations_checked=len({e['id'] for e in mr}), of_which_named_definitions=len({e['id'] for e in mr if e['id'] in defined}),
               worst_ulps=max([e['ulps'] for e in mr] or [0]), tensor_real_events=len(tr), worst_tensor_ulps=max([e['ulps'] for e in tr] or [0]),
               note='every all-scalar monomial relation (the named definitions among them) against c * prod x^p in __float128, three numeric types, random positive inputs over 40 binades; budget 4 ulps (8 with a square root)')
-    chk.count(evaluations=sum(e['n'] for e in mr) + sum(e['n'] for e in tr) + len(td) + len(defs), distinct=len(defs) + len(td) + len(mr) + len(tr))
+    chk.count(evaluations=sum(e['n'] for e in mr) + sum(e['n'] for e in tr) + len(td) + len(defs) + len(sv), distinct=len(defs) + len(sv) + len(td) + len(mr) + len(tr))
     chk.cov['rule'] = 'one Def fact per named definition (23 scalar) + 14 tensor-definition relations x 3 numeric types x 3 integer cases; numeric events per (relation, numeric type)'
     for d in defs[:3]:
         chk.sample({'definition': d['def'], 'relation': byid[d['rel']]['name'] if d['rel'] >= 0 else None,
